@@ -64,6 +64,7 @@ Proof.
     destruct (generate (c_mode c) f r); [|intros E; inversion E; subst; assumption].
     destruct (ppath_eqb p (pf_rel f)); [apply IH; assumption|].
     destruct (contained (c_var c) (w_fs w) f p) as [[|]|]; try (intros E; inversion E; subst; assumption).
+    destruct (dest_parent_test (c_var c) (w_fs w) f p) as [[|]|]; try (intros E; inversion E; subst; assumption).
     destruct (parents_contained (w_fs w) f p) as [[|]|]; try (intros E; inversion E; subst; assumption).
     destruct (source_contained (w_fs w) f) as [[|]|]; try (intros E; inversion E; subst; assumption).
     destruct (renamer c w r0 (pf_rel f) p false) as [w1 [e1|]] eqn:R;
